@@ -1,3 +1,6 @@
+(* STATUS NOTE (third session): remarks of the form "NOT PROVED" in the comments below were written when the first theorems of this
+   file were stated; theorems added further down in this file supersede them.  The current status of the property is the row of
+   DESIGN.md section 14.4; the premises that remain are listed in DESIGN.md section 14.9. *)
 (* C03 — Rewriting is sound in a model: if every rule handed to apply_rewrites is valid in F_p (arithmetic
    modulo p with a summation binder and a let binder), every e-node of every class and the inserted terms
    denote the same function of the class's parameter slots, and redundant slots do not influence the value.
